@@ -17,6 +17,28 @@ func ratOfFloat(v float64) string {
 	return r.String()
 }
 
+// a noisy line at huge scale: extents 2^33..2^38 in both directions, perpendicular noise of a few thousand to a few
+// million units; used with an epsilon several times the noise, so that most vertices are well within epsilon
+func genHugeNoisyLine(r *RNG) (clip.Path64, float64) {
+	n := 5 + r.Intn(10)
+	sx := (int64(1) << uint(33+r.Intn(5))) / int64(n)
+	sy := (int64(1) << uint(32+r.Intn(6))) / int64(n)
+	if r.Bool() {
+		sy = -sy
+	}
+	amp := int64(1) << uint(10+r.Intn(12))
+	p := make(clip.Path64, n)
+	for i := range p {
+		// noise along the normal direction (-sy, sx), scaled
+		t := float64(r.Range(-amp, amp))
+		l := math.Hypot(float64(sx), float64(sy))
+		p[i] = clip.Point64{X: int64(i)*sx + int64(-float64(sy)/l*t) + r.Range(-3, 3), Y: int64(i)*sy + int64(float64(sx)/l*t) + r.Range(-3, 3)}
+	}
+	// two genuine corners far off the line
+	p = append(p, clip.Point64{X: p[n-1].X + sy*3, Y: p[n-1].Y - sx*3}, clip.Point64{X: p[0].X + sy*3, Y: p[0].Y - sx*3})
+	return p, float64(amp) * float64(2+r.Intn(6))
+}
+
 func genSimplifyPath(r *RNG) clip.Path64 {
 	switch r.Intn(5) {
 	case 0:
@@ -85,6 +107,22 @@ func cmdC16(r *RNG, n int, e *Emitter, args []string) {
 		eps := epsVals[r.Intn(len(epsVals))]
 		if r.Intn(6) == 0 {
 			eps = r.Float() * 5
+		}
+		if i%13 == 7 {
+			p, eps = genHugeNoisyLine(r)
+			e.Count("family=huge-noisy-line")
+			if r.Intn(3) == 0 {
+				// a genuine corner whose exact cross product with its neighbours is a non-zero multiple of 2^64
+				// (differences (m 2^32, 0) and (c, k 2^32)), with epsilon 0 or tiny: it must stay
+				x0, y0 := r.Range(-1000, 1000), r.Range(-1000, 1000)
+				m, k := r.Range(1, 40), r.Range(1, 40)
+				c := r.Range(-(1 << 20), 1<<34)
+				p = clip.Path64{{X: x0, Y: y0}, {X: x0 + m<<32, Y: y0}, {X: x0 + c, Y: y0 + k<<32}, {X: x0 - r.Range(1, 1<<30), Y: y0 + r.Range(1, 1<<33)}}
+				k0 := r.Intn(4)
+				p = append(append(clip.Path64{}, p[k0:]...), p[:k0]...)
+				eps = []float64{0, 0, 0.5, 3}[r.Intn(4)]
+				e.Count("family=huge-wrap-corner")
+			}
 		}
 		closed := r.Bool()
 		p0 := append(clip.Path64{}, p...)
